@@ -55,6 +55,16 @@ run $S/C13b/patch.diff C13
 run $S/C14b/patch.diff C14
 run $S/C17b/patch.diff C17
 run $S/C18b/patch.diff C18
+run $S/C01c/patch.diff C01 C02
+run $S/C02c/patch.diff C02 C04
+run $S/C03c/patch.diff C03
+run $S/C05c/patch.diff C05
+run $S/C07c/patch.diff C07
+run $S/C08c/patch.diff C08
+run $S/C09c/patch.diff C09
+run $S/C10c/patch.diff C10
+run $S/C12c/patch.diff C12
+run $S/C13c/patch.diff C12 C13
 run $S/extra/m1-linkttl.diff C01
 run $S/extra/m2-cachekey-format.diff C12
 run $S/extra/m3-cacheadd-nolock.diff C14 C12
